@@ -1,4 +1,6 @@
 import MmtkModel.Lemmas.Sched
+import MmtkModel.Lemmas.SchedLive
+import MmtkModel.Props.C15
 import MmtkModel.Generated.Stages
 /-!
 # C14 — Every requested GC completes; workers never deadlock or lose a wake-up
@@ -102,6 +104,68 @@ theorem gc_never_sleeps_partial {c : Cfg} (hn : 0 < c.n) {s : State} (h : Reacha
     (hall : ∀ x, x < c.n → s.pc x = .waiting) : s.current = none ∧ anyRequested s = false :=
   let ⟨h1, h2⟩ := (reachable_invAB hn h).2 hall
   ⟨h2, h1⟩
+
+/-! ## liveness under fairness -/
+
+/-- **C14 (progress)** every worker eventually parks: in a fair run with finitely many packets and
+finitely many environment actions in which no assertion fires, from a state where some goal is requested
+(or a Gc goal is current) the run reaches a `park` step of the *last* parker, the worker that runs
+`on_last_parked`; the request / goal is still there (`Pending`) at that step. -/
+theorem all_workers_park_eventually {c : Cfg} {tr : Nat → State} {act : Nat → Option Act}
+    (hn : 0 < c.n) (hmut : c.mutAddOpen = false) (hu : c.unconIdx < c.L)
+    (R : FairRun c tr act) (hN : FiniteSpawn tr) (hE : FiniteEnv act) (hA : NoAssert c tr) (hP : Pending c (tr 0)) :
+    ∃ j, IsLastPark c (tr j) (act j) ∧ ∀ i, i ≤ j → Pending c (tr i) :=
+  last_park_eventually hn hmut hu R hN hE hA hP
+
+/-- **C14 (request leads to goal)** a pending Gc request becomes the current goal, before any GC completes. -/
+theorem request_leads_to_goal {c : Cfg} {tr : Nat → State} {act : Nat → Option Act}
+    (hn : 0 < c.n) (hmut : c.mutAddOpen = false) (hu : c.unconIdx < c.L)
+    (R : FairRun c tr act) (hN : FiniteSpawn tr) (hE : FiniteEnv act) (hA : NoAssert c tr) (hP : GcPending c (tr 0)) :
+    ∃ j, (tr j).current = some .gc ∧ ∀ i, i ≤ j → (tr i).gcDone = (tr 0).gcDone := by
+  obtain ⟨j0, h1, h2, _⟩ := gc_request_completes hn hmut hu R hN hE hA hP
+  exact ⟨j0, h1, h2⟩
+
+/-- **C14 (a GC in progress completes)** `gcDone` changes. -/
+theorem gc_in_progress_completes {c : Cfg} {tr : Nat → State} {act : Nat → Option Act}
+    (hn : 0 < c.n) (hmut : c.mutAddOpen = false) (hu : c.unconIdx < c.L)
+    (R : FairRun c tr act) (hN : FiniteSpawn tr) (hE : FiniteEnv act) (hA : NoAssert c tr) (hP : Pending c (tr 0))
+    (hc : (tr 0).current = some .gc) : ∃ j, (tr j).gcDone ≠ (tr 0).gcDone :=
+  gc_done_changes hn hmut hu R hN hE hA hP hc
+
+/-- **C14 (liveness) every requested GC completes.**  Let `tr` be a fair run (`FairRun`: weak fairness of
+every worker's loop actions, running packets terminate) from a reachable state with a pending Gc request or
+a Gc goal in progress (`GcPending`), in which finitely many packets are created (`FiniteSpawn`), finitely many
+mutator actions / spurious wake-ups occur (`FiniteEnv`), no debug assertion fires (`NoAssert`), and mutators do
+not push into open buckets (`mutAddOpen = false`).  Then the run reaches the transition `j → j+1` that
+completes that GC: up to `j` the counter `gcDone` is unchanged and at `j+1` it is one larger; the transition is
+the `park` of the last parker `w` while the Gc goal is current and every other worker is parked; afterwards
+every stop-the-world bucket is closed and empty, no worker runs a packet and every local deque is empty. -/
+theorem gc_completes_under_fairness {c : Cfg} {tr : Nat → State} {act : Nat → Option Act}
+    (hwf : c.WF) (hmut : c.mutAddOpen = false) (hu : c.unconIdx < c.L)
+    (R : FairRun c tr act) (hN : FiniteSpawn tr) (hE : FiniteEnv act) (hA : NoAssert c tr) (hP : GcPending c (tr 0)) :
+    ∃ j w tag, (∀ i, i ≤ j → (tr i).gcDone = (tr 0).gcDone) ∧ act j = some (.park w tag) ∧
+      (tr (j+1)).gcDone = (tr 0).gcDone + 1 ∧ (tr j).current = some .gc ∧ w < c.n ∧ (tr j).pc w = .parking ∧
+      (∀ x, x < c.n → x ≠ w → ((tr j).pc x).isParked = true) ∧
+      (∀ b, b < c.L → (c.info b).isStw = true → ((tr (j+1)).bkt b).isOpen = false ∧ ((tr (j+1)).bkt b).q = []) ∧
+      (∀ x, x < c.n → ((tr (j+1)).pc x).isExec = false ∧ (tr (j+1)).buf x = []) := by
+  obtain ⟨_, _, _, j1, _, hj1⟩ := gc_request_completes hwf.npos hmut hu R hN hE hA hP
+  obtain ⟨j, hne, hsame⟩ := first_change (fun i => (tr i).gcDone) ⟨j1, hj1⟩
+  cases ha : act j with
+  | none => rw [R.stutter_at ha] at hne; exact absurd rfl hne
+  | some a =>
+    have hs := R.step_at ha
+    obtain ⟨⟨w, tag, rfl⟩, hplus, hcur, hstw⟩ := all_closed_at_end hwf hs hne
+    obtain ⟨hq1, hq2⟩ := quiescent_at_end hwf hmut (R.reach j) hs hne
+    obtain ⟨hw, hpc, _, hcase⟩ := step_park_cases hs
+    have hA' := reachable_invA (R.reach j)
+    refine ⟨j, w, tag, hsame, ha, by rw [hplus, hsame j (Nat.le_refl _)], hcur, hw, hpc, ?_, hstw, ?_⟩
+    · rcases hcase with ⟨_, e⟩ | ⟨hlast, _⟩
+      · rw [e] at hne; exact absurd rfl hne
+      · intro x hx hxw
+        exact countW_all_but c.n (fun x => ((tr j).pc x).isParked) w hw (by simp [hpc, PC.isParked])
+          (by have := hA'.parked_eq; unfold parkedCount at this; omega) x hx hxw
+    · intro x hx
+      exact ⟨by rw [step_park_isExec hs]; exact hq1 x hx, hq2 x hx⟩
 
 /-! ## the hypotheses are satisfiable; the mutator-push hypothesis is necessary -/
 
